@@ -109,7 +109,7 @@ type stats struct {
 func (s *stats) add(k string) { s.n[k]++ }
 
 func (s *stats) nontrivial() bool {
-	return s.n["instances"] >= 2 || s.n["scoped-prop-read"] > 0 || s.n["slot-in-component-loop"] > 0
+	return s.n["instances"] >= 2 || s.n["scoped-prop-read"] > 0 || s.n["slot-in-component-loop"] > 0 || s.n["optional-prop-absent"] > 0
 }
 
 func (s *stats) classes() []string {
@@ -137,17 +137,20 @@ type mctx struct {
 	inSupply bool // evaluating supplied content
 	pageLoop bool // inside a v-for of the page
 	inLayout bool // evaluating the layout file itself (not a component it includes)
+	inst     int  // number of the component instance being evaluated
 }
 
 type model struct {
 	c       Case
 	st      *stats
 	content []*hx.N // rendered page, while the layout is evaluated
+	seen    map[string]bool // instance/slot/prop that had a value in an earlier use
+	insts   int
 }
 
 // expect computes the expected normalised output of the page.
 func expect(c Case) ([]*hx.N, *stats, error) {
-	m := &model{c: c, st: &stats{n: map[string]int{}}}
+	m := &model{c: c, st: &stats{n: map[string]int{}}, seen: map[string]bool{}}
 	data := map[string]any{}
 	for k, v := range c.Data {
 		data[k] = v.Go()
@@ -176,6 +179,10 @@ func (m *model) eval(nodes []Node, cx mctx) ([]*hx.N, error) {
 					continue
 				}
 				v, err := cx.env.path(p.X)
+				if p.O && (err != nil || v == nil) {
+					sb.WriteString(undef)
+					continue
+				}
 				if err != nil {
 					return nil, err
 				}
@@ -308,8 +315,14 @@ func (m *model) evalEl(n Node, cx mctx) ([]*hx.N, error) {
 
 func (m *model) evalSlot(n Node, cx mctx) ([]*hx.N, error) {
 	props := map[string]any{}
+	optional := map[string]bool{}
 	for _, kv := range n.Bind {
 		v, err := cx.env.path(kv.V)
+		if kv.O && (err != nil || v == nil) {
+			// this use binds nothing for the prop: it is absent, whatever an earlier use bound
+			optional[kv.K] = true
+			continue
+		}
 		if err != nil {
 			return nil, err
 		}
@@ -341,6 +354,21 @@ func (m *model) evalSlot(n Node, cx mctx) ([]*hx.N, error) {
 		return m.eval(n.Kids, cx)
 	}
 	m.st.add("filled:" + sup.form)
+	for _, kv := range n.Bind {
+		if !kv.O || (sup.varN == "" && len(sup.destr) == 0) {
+			continue
+		}
+		key := fmt.Sprintf("%d/%s/%s", cx.inst, name, kv.K)
+		if _, present := props[kv.K]; present {
+			m.st.add("optional-prop-present")
+			m.seen[key] = true
+		} else {
+			m.st.add("optional-prop-absent")
+			if m.seen[key] {
+				m.st.add("optional-prop-absent-after-present")
+			}
+		}
+	}
 	if len(n.Kids) > 0 {
 		m.st.add("fallback-suppressed")
 	}
@@ -352,6 +380,9 @@ func (m *model) evalSlot(n Node, cx mctx) ([]*hx.N, error) {
 	case len(sup.destr) > 0:
 		for _, d := range sup.destr {
 			v, ok := props[d]
+			if !ok && optional[d] {
+				continue
+			}
 			if !ok {
 				return nil, fmt.Errorf("destructured name %q is not bound by the slot", d)
 			}
@@ -367,6 +398,7 @@ func (m *model) evalSlot(n Node, cx mctx) ([]*hx.N, error) {
 		sc:       sup.sc,
 		inComp:   cx.inComp,
 		inSupply: true,
+		inst:     cx.inst,
 	}
 	return m.eval(sup.kids, cx2)
 }
@@ -483,7 +515,8 @@ func (m *model) evalInc(n Node, cx mctx) ([]*hx.N, error) {
 			m.st.add("supplied-for-a-slot-the-component-lacks")
 		}
 	}
-	return m.eval(cp.Nodes, mctx{env: &menv{vars: vars}, sc: sc, inComp: cx.inComp + 1, pageLoop: cx.pageLoop})
+	m.insts++
+	return m.eval(cp.Nodes, mctx{env: &menv{vars: vars}, sc: sc, inComp: cx.inComp + 1, pageLoop: cx.pageLoop, inst: m.insts})
 }
 
 // countSlots counts the <slot> elements of a component body by name (not those written inside
